@@ -1,6 +1,7 @@
 package checks
 
 import (
+	"github.com/diskfs/go-diskfs/verifhook/vtime"
 	"bytes"
 	"crypto/sha256"
 	"encoding/json"
@@ -197,6 +198,18 @@ func (f failingBackend) Writable() (backend.WritableFile, error) {
 	return nil, errors.New("backend refuses to be written")
 }
 
+// failingWriterBackend: as failingBackend, but the backend's own type can also be written directly (the natural shape of a
+// hand-written backend that embeds an *os.File): the refusal lives in Writable() alone.
+type failingWriterBackend struct {
+	backend.Storage
+	dev *memdev.Dev
+}
+
+func (f failingWriterBackend) Writable() (backend.WritableFile, error) {
+	return nil, errors.New("backend refuses to be written")
+}
+func (f failingWriterBackend) WriteAt(p []byte, off int64) (int, error) { return f.dev.WriteAt(p, off) }
+
 // ---- the target: (image, way of being read-only) ---------------------------------------------------------
 
 type c11Target struct {
@@ -318,6 +331,17 @@ func roLetters(final, writableDevice bool) []roLetter {
 			return errors.New("n/a")
 		}},
 	}
+	if final {
+		ls = append(ls, roLetter{"Finalize", true, func(c *roCtx) error {
+			switch f := c.fs.(type) {
+			case *iso9660.FileSystem:
+				return f.Finalize(iso9660.FinalizeOptions{RockRidge: true})
+			case *squashfs.FileSystem:
+				return f.Finalize(squashfs.FinalizeOptions{})
+			}
+			return errors.New("n/a")
+		}})
+	}
 	if !(final && writableDevice) {
 		// disk-level mutators are only "must refuse" on a read-only disk
 		ls = append(ls,
@@ -353,7 +377,13 @@ func nilIfNoTable(err error, c *roCtx) error {
 
 func (t c11Target) scenario(depth int) explore.Scenario {
 	name := fmt.Sprintf("readonly/%s/%s/%s", t.Kind, t.Table, t.Mode)
+	// the images are built "in 2001" and read "in 2024": whatever a reader keeps up to date by the wall clock (an access
+	// date, a mount time) would then differ from what is stored
+	vtime.Set(func() time.Time { return time.Date(2001, 2, 3, 4, 5, 6, 0, time.UTC) })
+	os.Setenv("SOURCE_DATE_EPOCH", "981173106")
 	im, ierr := getROImage(t.Kind, t.Table)
+	vtime.Set(func() time.Time { return time.Date(2024, 5, 6, 7, 8, 10, 0, time.UTC) })
+	os.Unsetenv("SOURCE_DATE_EPOCH")
 	writable := t.Mode == "rw-memdev"
 	var letters []roLetter
 	if ierr == nil {
@@ -397,6 +427,10 @@ func (t c11Target) scenario(depth int) explore.Scenario {
 			dev = im.Dev.Clone()
 			dev.LogEvents = true
 			b = failingBackend{file.New(dev, false)}
+		case "ro-failing-writer":
+			dev = im.Dev.Clone()
+			dev.LogEvents = true
+			b = failingWriterBackend{file.New(dev, false), dev}
 		case "ro-frompath":
 			fb, err := file.OpenFromPath(im.File, true)
 			if err != nil {
@@ -509,7 +543,7 @@ func c11Targets(quick bool) []c11Target {
 	var ts []c11Target
 	for _, k := range []string{"fat12", "fat32", "fat16", "ext4", "iso", "squashfs"} {
 		for _, tb := range []string{"gpt", "mbr", "none"} {
-			for _, m := range []string{"ro-memdev", "ro-failing", "ro-open", "ro-frompath", "rw-memdev"} {
+			for _, m := range []string{"ro-memdev", "ro-failing", "ro-failing-writer", "ro-open", "ro-frompath", "rw-memdev"} {
 				if quick {
 					if k == "fat16" || (tb == "mbr" && k != "fat32") || (tb == "none" && k != "ext4" && k != "iso") {
 						continue
